@@ -475,3 +475,360 @@ Qed.
 Lemma push_codecs_has_pt : forall cs neg c,
   In c cs -> has_pt (c_pt c) (fst (push_codecs neg cs)).
 Proof. intros cs neg c H. rewrite push_codecs_fold. now apply push_fold_has_pt. Qed.
+
+(* ---------- updateFromRemoteDescription ---------- *)
+
+(* where a negotiated codec of kind k can come from in one loop iteration *)
+Definition from_section (locals : list codec) (k : kind) (s : rsection) (c : codec) : Prop :=
+  exists ep, fst s = k /\ match_passes locals (snd s) = Ok ep /\ In c (chosen ep).
+
+Lemma update_section_spec : forall e s e' x err,
+  update_section e s = (e', x, err) ->
+  e_video e' = e_video e /\ e_audio e' = e_audio e /\ e_multi e' = e_multi e /\
+  (forall c, In c (e_nvideo e) -> In c (e_nvideo e')) /\
+  (forall c, In c (e_naudio e) -> In c (e_naudio e')) /\
+  (forall c, In c (e_nvideo e') -> In c (e_nvideo e) \/ from_section (e_video e) KVideo s c) /\
+  (forall c, In c (e_naudio e') -> In c (e_naudio e) \/ from_section (e_audio e) KAudio s c).
+Proof.
+  intros e [k rcs] e' x err H. unfold update_section in H.
+  destruct k; cbn [negb kind_eqb andb orb] in H.
+  - (* unknown kind: never reaches the codecs *)
+    rewrite andb_false_r in H. cbn in H. inversion H; subst.
+    repeat split; auto.
+  - (* audio *)
+    destruct (e_negA e) eqn:HA; cbn [negb orb] in H.
+    + rewrite andb_true_r in H. destruct (e_multi e) eqn:HM; cbn [negb] in H.
+      * cbn [locals_of] in H.
+        destruct (match_passes (e_audio e) rcs) as [ep|er|] eqn:Hmp.
+        -- destruct (chosen ep) as [|c0 cs] eqn:Hch.
+           ++ inversion H; subst. repeat split; auto.
+           ++ destruct (push_codecs (e_naudio e) (c0 :: cs)) as [l bad] eqn:Hpush.
+              assert (Hl : l = fst (push_codecs (e_naudio e) (c0 :: cs))) by now rewrite Hpush.
+              destruct bad; inversion H; subst e' x err; cbn [e_video e_audio e_multi e_nvideo e_naudio];
+                (repeat split; auto;
+                 [ intros c Hc; rewrite Hl; now apply push_codecs_keeps
+                 | intros c Hc; rewrite Hl in Hc; apply push_codecs_in in Hc;
+                   destruct Hc as [Hc|Hc]; [now left|right; exists ep; cbn [fst snd]; rewrite Hch; auto] ]).
+        -- inversion H; subst. repeat split; auto.
+        -- inversion H; subst. repeat split; auto.
+      * inversion H; subst. repeat split; auto.
+    + cbn [locals_of e_audio] in H.
+      destruct (match_passes (e_audio e) rcs) as [ep|er|] eqn:Hmp.
+      * destruct (chosen ep) as [|c0 cs] eqn:Hch.
+        -- inversion H; subst. cbn. repeat split; auto.
+        -- cbn [e_naudio e_video e_audio e_negV e_negA e_multi e_nvideo] in H.
+           destruct (push_codecs (e_naudio e) (c0 :: cs)) as [l bad] eqn:Hpush.
+           assert (Hl : l = fst (push_codecs (e_naudio e) (c0 :: cs))) by now rewrite Hpush.
+           destruct bad; inversion H; subst e' x err; cbn [e_video e_audio e_multi e_nvideo e_naudio];
+             (repeat split; auto;
+              [ intros c Hc; rewrite Hl; now apply push_codecs_keeps
+              | intros c Hc; rewrite Hl in Hc; apply push_codecs_in in Hc;
+                destruct Hc as [Hc|Hc]; [now left|right; exists ep; cbn [fst snd]; rewrite Hch; auto] ]).
+      * inversion H; subst. cbn. repeat split; auto.
+      * inversion H; subst. cbn. repeat split; auto.
+  - (* video *)
+    destruct (e_negV e) eqn:HV; cbn [negb orb] in H.
+    + rewrite andb_true_r in H. destruct (e_multi e) eqn:HM; cbn [negb] in H.
+      * cbn [locals_of] in H.
+        destruct (match_passes (e_video e) rcs) as [ep|er|] eqn:Hmp.
+        -- destruct (chosen ep) as [|c0 cs] eqn:Hch.
+           ++ inversion H; subst. repeat split; auto.
+           ++ destruct (push_codecs (e_nvideo e) (c0 :: cs)) as [l bad] eqn:Hpush.
+              assert (Hl : l = fst (push_codecs (e_nvideo e) (c0 :: cs))) by now rewrite Hpush.
+              destruct bad; inversion H; subst e' x err; cbn [e_video e_audio e_multi e_nvideo e_naudio];
+                (repeat split; auto;
+                 [ intros c Hc; rewrite Hl; now apply push_codecs_keeps
+                 | intros c Hc; rewrite Hl in Hc; apply push_codecs_in in Hc;
+                   destruct Hc as [Hc|Hc]; [now left|right; exists ep; cbn [fst snd]; rewrite Hch; auto] ]).
+        -- inversion H; subst. repeat split; auto.
+        -- inversion H; subst. repeat split; auto.
+      * inversion H; subst. repeat split; auto.
+    + cbn [locals_of e_video] in H.
+      destruct (match_passes (e_video e) rcs) as [ep|er|] eqn:Hmp.
+      * destruct (chosen ep) as [|c0 cs] eqn:Hch.
+        -- inversion H; subst. cbn. repeat split; auto.
+        -- cbn [e_naudio e_video e_audio e_negV e_negA e_multi e_nvideo] in H.
+           destruct (push_codecs (e_nvideo e) (c0 :: cs)) as [l bad] eqn:Hpush.
+           assert (Hl : l = fst (push_codecs (e_nvideo e) (c0 :: cs))) by now rewrite Hpush.
+           destruct bad; inversion H; subst e' x err; cbn [e_video e_audio e_multi e_nvideo e_naudio];
+             (repeat split; auto;
+              [ intros c Hc; rewrite Hl; now apply push_codecs_keeps
+              | intros c Hc; rewrite Hl in Hc; apply push_codecs_in in Hc;
+                destruct Hc as [Hc|Hc]; [now left|right; exists ep; cbn [fst snd]; rewrite Hch; auto] ]).
+      * inversion H; subst. cbn. repeat split; auto.
+      * inversion H; subst. cbn. repeat split; auto.
+Qed.
+
+Lemma update_from_remote_spec : forall secs e e' res,
+  update_from_remote e secs = (e', res) ->
+  e_video e' = e_video e /\ e_audio e' = e_audio e /\
+  (forall c, In c (e_nvideo e) -> In c (e_nvideo e')) /\
+  (forall c, In c (e_naudio e) -> In c (e_naudio e')) /\
+  (forall c, In c (e_nvideo e') ->
+     In c (e_nvideo e) \/ exists s, In s secs /\ from_section (e_video e) KVideo s c) /\
+  (forall c, In c (e_naudio e') ->
+     In c (e_naudio e) \/ exists s, In s secs /\ from_section (e_audio e) KAudio s c).
+Proof.
+  induction secs as [|s t IH]; intros e e' res H.
+  - cbn in H. inversion H; subst. repeat split; auto.
+  - cbn [update_from_remote] in H.
+    destruct (update_section e s) as [[e1 x] err] eqn:Hs.
+    destruct (update_section_spec _ _ _ _ _ Hs) as [Hv [Ha [_ [Hkv [Hka [Hnv Hna]]]]]].
+    destruct err as [msg|].
+    + inversion H; subst e' res. repeat split; auto.
+      * intros c Hc. destruct (Hnv c Hc) as [Hc'|Hc']; [now left|right]. exists s. split; [now left|assumption].
+      * intros c Hc. destruct (Hna c Hc) as [Hc'|Hc']; [now left|right]. exists s. split; [now left|assumption].
+    + destruct (IH _ _ _ H) as [Hv' [Ha' [Hkv' [Hka' [Hnv' Hna']]]]].
+      rewrite Hv in Hv', Hnv'. rewrite Ha in Ha', Hna'.
+      repeat split; auto.
+      * intros c Hc. destruct (Hnv' c Hc) as [Hc'|[s' [Hs' Hf]]].
+        -- destruct (Hnv c Hc') as [Hc''|Hc'']; [now left|right]. exists s. split; [now left|assumption].
+        -- right. exists s'. split; [now right|assumption].
+      * intros c Hc. destruct (Hna' c Hc) as [Hc'|[s' [Hs' Hf]]].
+        -- destruct (Hna c Hc') as [Hc''|Hc'']; [now left|right]. exists s. split; [now left|assumption].
+        -- right. exists s'. split; [now right|assumption].
+Qed.
+
+(* the statement for an engine that has negotiated nothing yet, by kind *)
+Definition negotiated_of (e : engine) (k : kind) : list codec :=
+  match k with KAudio => e_naudio e | _ => e_nvideo e end.
+
+Lemma negotiated_from_offer : forall video audio multi secs e' res k c,
+  k = KVideo \/ k = KAudio ->
+  update_from_remote (new_engine video audio multi) secs = (e', res) ->
+  In c (negotiated_of e' k) ->
+  exists rcs m, In (k, rcs) secs /\ m <> MNone /\
+    entry_of (locals_of (new_engine video audio multi) k) rcs m c.
+Proof.
+  intros video audio multi secs e' res k c Hk H Hc.
+  destruct (update_from_remote_spec _ _ _ _ H) as [_ [_ [_ [_ [Hnv Hna]]]]].
+  destruct Hk as [-> | ->]; cbn [negotiated_of locals_of new_engine e_video e_audio] in *.
+  - destruct (Hnv c Hc) as [[]|[[k' rcs] [Hs [ep [Hk' [Hmp Hin]]]]]]. cbn [fst snd] in *. subst k'.
+    destruct (chosen_entry _ _ _ _ Hmp Hin) as [m [Hm He]]. exists rcs, m. auto.
+  - destruct (Hna c Hc) as [[]|[[k' rcs] [Hs [ep [Hk' [Hmp Hin]]]]]]. cbn [fst snd] in *. subst k'.
+    destruct (chosen_entry _ _ _ _ Hmp Hin) as [m [Hm He]]. exists rcs, m. auto.
+Qed.
+
+(* ---------- getCodecByPayload ---------- *)
+
+Lemma lookup_negotiated_video : forall e p c,
+  e_negV e = true -> find (pt_is p) (e_nvideo e) = Some c ->
+  get_codec_by_payload e p = Ok (c, KVideo).
+Proof. intros e p c Hn Hf. unfold get_codec_by_payload. now rewrite Hn, Hf. Qed.
+
+Lemma lookup_negotiated_audio : forall e p c,
+  (e_negV e = true -> find (pt_is p) (e_nvideo e) = None) ->
+  e_negA e = true -> find (pt_is p) (e_naudio e) = Some c ->
+  get_codec_by_payload e p = Ok (c, KAudio).
+Proof.
+  intros e p c Hv Hn Hf. unfold get_codec_by_payload.
+  destruct (e_negV e); [rewrite (Hv eq_refl)|]; now rewrite Hn, Hf.
+Qed.
+
+(* once a kind is negotiated its registered list is never consulted *)
+Lemma lookup_source : forall e p c k,
+  get_codec_by_payload e p = Ok (c, k) ->
+  c_pt c = p /\
+  ((k = KVideo /\ if e_negV e then In c (e_nvideo e) else In c (e_video e)) \/
+   (k = KAudio /\ if e_negA e then In c (e_naudio e) else In c (e_audio e))).
+Proof.
+  intros e p c k H. unfold get_codec_by_payload in H.
+  assert (F : forall l x, find (pt_is p) l = Some x -> In x l /\ c_pt x = p).
+  { intros l x Hx. apply find_some in Hx. destruct Hx as [Hi Hp]. split; [assumption|].
+    unfold pt_is in Hp. now apply N.eqb_eq. }
+  destruct (e_negV e) eqn:HV; destruct (e_negA e) eqn:HA; cbn [negb] in H.
+  - destruct (find (pt_is p) (e_nvideo e)) eqn:F1; [inversion H; subst; destruct (F _ _ F1); auto|].
+    destruct (find (pt_is p) (e_naudio e)) eqn:F2; [inversion H; subst; destruct (F _ _ F2); auto|].
+    discriminate.
+  - destruct (find (pt_is p) (e_nvideo e)) eqn:F1; [inversion H; subst; destruct (F _ _ F1); auto|].
+    destruct (find (pt_is p) (e_audio e)) eqn:F2; [inversion H; subst; destruct (F _ _ F2); auto|].
+    discriminate.
+  - destruct (find (pt_is p) (e_naudio e)) eqn:F1; [inversion H; subst; destruct (F _ _ F1); auto|].
+    destruct (find (pt_is p) (e_video e)) eqn:F2; [inversion H; subst; destruct (F _ _ F2); auto|].
+    discriminate.
+  - destruct (find (pt_is p) (e_video e)) eqn:F1; [inversion H; subst; destruct (F _ _ F1); auto|].
+    destruct (find (pt_is p) (e_audio e)) eqn:F2; [inversion H; subst; destruct (F _ _ F2); auto|].
+    discriminate.
+Qed.
+
+(* the negotiated lists change only by pushing the chosen list of a section *)
+Lemma update_section_push : forall e s e' x err,
+  update_section e s = (e', x, err) ->
+  (e_nvideo e' = e_nvideo e \/
+   exists ep, fst s = KVideo /\ match_passes (e_video e) (snd s) = Ok ep /\
+              e_nvideo e' = fst (push_codecs (e_nvideo e) (chosen ep))) /\
+  (e_naudio e' = e_naudio e \/
+   exists ep, fst s = KAudio /\ match_passes (e_audio e) (snd s) = Ok ep /\
+              e_naudio e' = fst (push_codecs (e_naudio e) (chosen ep))).
+Proof.
+  intros e [k rcs] e' x err H. unfold update_section in H.
+  destruct k; destruct (e_negA e) eqn:HA; destruct (e_negV e) eqn:HV; destruct (e_multi e) eqn:HM;
+    cbn [negb kind_eqb andb orb locals_of e_video e_audio e_nvideo e_naudio e_negV e_negA e_multi] in H;
+    repeat (match type of H with
+            | context [match ?y with _ => _ end] => destruct y eqn:?
+            end);
+    inversion H; subst; cbn [e_nvideo e_naudio fst snd]; split; auto;
+    right; eexists; (split; [reflexivity|]); (split; [eassumption|]);
+    match goal with
+    | Hc : chosen _ = _, Hp : push_codecs _ _ = _ |- _ => rewrite Hc, Hp; reflexivity
+    end.
+Qed.
+
+Lemma section_rtx_follows_primary_video : forall e s e' x err c a,
+  update_section e s = (e', x, err) ->
+  In c (e_nvideo e') -> ~ In c (e_nvideo e) -> apt_of c = Some a ->
+  exists p, parse_uint8 a = Some p /\ has_pt p (e_nvideo e').
+Proof.
+  intros e s e' x err c a H Hc Hn Ha.
+  destruct (update_section_push _ _ _ _ _ H) as [[Heq|[ep [Hk [Hmp Heq]]]] _].
+  - rewrite Heq in Hc. contradiction.
+  - rewrite Heq in Hc. apply push_codecs_in in Hc. destruct Hc as [Hc|Hc]; [contradiction|].
+    destruct (chosen_apt _ _ _ _ _ Hmp Hc Ha) as [p [Hp [q [Hq Hpt]]]].
+    exists p. split; [assumption|]. rewrite Heq, <- Hpt. now apply push_codecs_has_pt.
+Qed.
+
+Lemma section_rtx_follows_primary_audio : forall e s e' x err c a,
+  update_section e s = (e', x, err) ->
+  In c (e_naudio e') -> ~ In c (e_naudio e) -> apt_of c = Some a ->
+  exists p, parse_uint8 a = Some p /\ has_pt p (e_naudio e').
+Proof.
+  intros e s e' x err c a H Hc Hn Ha.
+  destruct (update_section_push _ _ _ _ _ H) as [_ [Heq|[ep [Hk [Hmp Heq]]]]].
+  - rewrite Heq in Hc. contradiction.
+  - rewrite Heq in Hc. apply push_codecs_in in Hc. destruct Hc as [Hc|Hc]; [contradiction|].
+    destruct (chosen_apt _ _ _ _ _ Hmp Hc Ha) as [p [Hp [q [Hq Hpt]]]].
+    exists p. split; [assumption|]. rewrite Heq, <- Hpt. now apply push_codecs_has_pt.
+Qed.
+
+(* over whole descriptions: every negotiated codec with an apt parameter names
+   the payload type of a negotiated codec *)
+Definition apt_closed (l : list codec) : Prop :=
+  forall c a, In c l -> apt_of c = Some a -> exists p, parse_uint8 a = Some p /\ has_pt p l.
+
+Lemma push_apt_closed : forall locals rcs ep neg,
+  match_passes locals rcs = Ok ep -> apt_closed neg ->
+  apt_closed (fst (push_codecs neg (chosen ep))).
+Proof.
+  intros locals rcs ep neg Hmp Hcl c a Hc Ha.
+  apply push_codecs_in in Hc. destruct Hc as [Hc|Hc].
+  - destruct (Hcl c a Hc Ha) as [p [Hp Hh]]. exists p. split; [assumption|].
+    eapply has_pt_mono; [|exact Hh]. intros x Hx. now apply push_codecs_keeps.
+  - destruct (chosen_apt _ _ _ _ _ Hmp Hc Ha) as [p [Hp [q [Hq Hpt]]]].
+    exists p. split; [assumption|]. rewrite <- Hpt. now apply push_codecs_has_pt.
+Qed.
+
+Lemma update_section_apt_closed : forall e s e' x err,
+  update_section e s = (e', x, err) ->
+  (apt_closed (e_nvideo e) -> apt_closed (e_nvideo e')) /\
+  (apt_closed (e_naudio e) -> apt_closed (e_naudio e')).
+Proof.
+  intros e s e' x err H.
+  destruct (update_section_push _ _ _ _ _ H) as [[Hv|[ep [_ [Hmp Hv]]]] [Ha|[ep' [_ [Hmp' Ha]]]]];
+    rewrite Hv, Ha; split; auto; intros Hcl; eapply push_apt_closed; eauto.
+Qed.
+
+Lemma update_from_remote_apt_closed : forall secs e e' res,
+  update_from_remote e secs = (e', res) ->
+  (apt_closed (e_nvideo e) -> apt_closed (e_nvideo e')) /\
+  (apt_closed (e_naudio e) -> apt_closed (e_naudio e')).
+Proof.
+  induction secs as [|s t IH]; intros e e' res H.
+  - cbn in H. inversion H; subst. auto.
+  - cbn [update_from_remote] in H.
+    destruct (update_section e s) as [[e1 x] err] eqn:Hs.
+    destruct (update_section_apt_closed _ _ _ _ _ Hs) as [H1 H2].
+    destruct err.
+    + inversion H; subst. auto.
+    + destruct (IH _ _ _ H) as [H3 H4]. auto.
+Qed.
+
+Lemma rtx_follows_primary : forall video audio multi secs e' res k c a,
+  update_from_remote (new_engine video audio multi) secs = (e', res) ->
+  In c (negotiated_of e' k) -> apt_of c = Some a ->
+  exists p, parse_uint8 a = Some p /\ has_pt p (negotiated_of e' k).
+Proof.
+  intros video audio multi secs e' res k c a H Hc Ha.
+  destruct (update_from_remote_apt_closed _ _ _ _ H) as [Hv Hau].
+  assert (Hnil : apt_closed []) by (intros ? ? []).
+  destruct k; cbn [negotiated_of] in *.
+  - exact (Hv Hnil c a Hc Ha).
+  - exact (Hau Hnil c a Hc Ha).
+  - exact (Hv Hnil c a Hc Ha).
+Qed.
+
+(* ---------- the C15 clauses over a fresh engine ---------- *)
+
+Lemma negotiated_offered : forall video audio multi secs e' res k c,
+  k = KVideo \/ k = KAudio ->
+  update_from_remote (new_engine video audio multi) secs = (e', res) ->
+  In c (negotiated_of e' k) ->
+  exists rcs r, In (k, rcs) secs /\ In r rcs /\ same_but_fb c r.
+Proof.
+  intros video audio multi secs e' res k c Hk H Hc.
+  destruct (negotiated_from_offer _ _ _ _ _ _ _ _ Hk H Hc) as [rcs [m [Hs [_ He]]]].
+  destruct (entry_offered _ _ _ _ He) as [r [Hr Hsame]]. exists rcs, r. auto.
+Qed.
+
+Lemma negotiated_matched : forall video audio multi secs e' res k c,
+  k = KVideo \/ k = KAudio ->
+  update_from_remote (new_engine video audio multi) secs = (e', res) ->
+  In c (negotiated_of e' k) ->
+  exists rcs r lc, In (k, rcs) secs /\ In r rcs /\ same_but_fb c r /\
+    In lc (match k with KAudio => audio | _ => video end) /\
+    c_fb c = filter (fun f => existsb (fb_eqb f) (c_fb r)) (c_fb lc) /\
+    exists t, (t = r \/ (apt_of r <> None /\ exists l', t = set_line r l')) /\
+              (exact_ok t lc = true \/ partial_ok r lc = true).
+Proof.
+  intros video audio multi secs e' res k c Hk H Hc.
+  destruct (negotiated_from_offer _ _ _ _ _ _ _ _ Hk H Hc) as [rcs [m [Hs [Hm He]]]].
+  destruct (entry_matched _ _ _ _ Hm He) as [r [lc [Hr [Hsame [Hlc [Hfb [t [Ht Hmt]]]]]]]].
+  exists rcs, r, lc.
+  split; [exact Hs|]. split; [exact Hr|]. split; [exact Hsame|].
+  split; [destruct Hk as [-> | ->]; exact Hlc|]. split; [exact Hfb|].
+  exists t. split; [assumption|]. destruct Hmt as [[_ Hx]|[_ [Hx|Hx]]]; auto.
+Qed.
+
+(* what one section contributes comes from its chosen list *)
+Lemma section_contribution : forall e s e' x err c,
+  update_section e s = (e', x, err) ->
+  (In c (e_nvideo e') -> In c (e_nvideo e) \/
+     exists ep, fst s = KVideo /\ match_passes (e_video e) (snd s) = Ok ep /\ In c (chosen ep)) /\
+  (In c (e_naudio e') -> In c (e_naudio e) \/
+     exists ep, fst s = KAudio /\ match_passes (e_audio e) (snd s) = Ok ep /\ In c (chosen ep)).
+Proof.
+  intros e s e' x err c H.
+  destruct (update_section_spec _ _ _ _ _ H) as [_ [_ [_ [_ [_ [Hv Ha]]]]]].
+  split; intros Hc; [destruct (Hv c Hc)|destruct (Ha c Hc)]; auto.
+Qed.
+
+Lemma feedback_is_intersection : forall a b f,
+  fb_intersection a b = filter (fun x => existsb (fb_eqb x) b) a /\
+  (In f (fb_intersection a b) <-> In f a /\ In f b).
+Proof. intros a b f. split; [apply fb_intersection_filter | apply fb_intersection_in]. Qed.
+
+Lemma fuzzy_search_spec : forall n hay c,
+  (fuzzy_search n hay = (c, MExact) -> In c hay /\ exact_ok n c = true) /\
+  (fuzzy_search n hay = (c, MPartial) ->
+     In c hay /\ partial_ok n c = true /\ forall x, In x hay -> exact_ok n x = false) /\
+  (fuzzy_search n hay = (c, MNone) ->
+     c = empty_codec /\ forall x, In x hay -> exact_ok n x = false /\ partial_ok n x = false).
+Proof.
+  intros n hay c. split; [apply fuzzy_search_exact|split; [apply fuzzy_search_partial|apply fuzzy_search_none]].
+Qed.
+
+Lemma lookup_order : forall e p,
+  (forall c, e_negV e = true -> find (pt_is p) (e_nvideo e) = Some c ->
+     get_codec_by_payload e p = Ok (c, KVideo)) /\
+  (forall c, (e_negV e = true -> find (pt_is p) (e_nvideo e) = None) ->
+     e_negA e = true -> find (pt_is p) (e_naudio e) = Some c ->
+     get_codec_by_payload e p = Ok (c, KAudio)) /\
+  (forall c k, get_codec_by_payload e p = Ok (c, k) ->
+     c_pt c = p /\
+     ((k = KVideo /\ if e_negV e then In c (e_nvideo e) else In c (e_video e)) \/
+      (k = KAudio /\ if e_negA e then In c (e_naudio e) else In c (e_audio e)))).
+Proof.
+  intros e p. split; [|split].
+  - intros c. apply lookup_negotiated_video.
+  - intros c. apply lookup_negotiated_audio.
+  - apply lookup_source.
+Qed.
